@@ -116,12 +116,13 @@ func unquoteString(b []byte) ([]byte, int) {
 		if i >= len(b) {
 			return b, len(b)
 		}
-		if b[i] == '\r' || b[i] == '\n' {
+		if b[i] == '\r' || b[i] == '\n' || b[i] == '"' {
+			if i == 0 {
+				return nil, 0
+			}
 			return b[0:i], i
 		}
-		if b[i] == '"' {
-			return b[0:i], i
-		} else if b[i] == '\\' || b[i] >= utf8.RuneSelf {
+		if b[i] == '\\' || b[i] >= utf8.RuneSelf {
 			break
 		}
 		i++
